@@ -91,18 +91,21 @@ theorem structural_statements_write_nothing (prog : List Stmt) (f : Nat) (rest c
   refine ⟨?_, ?_, ?_, ?_, ?_, ?_⟩ <;> intro h <;> simp only [exec] at h
   · simp at h; rw [← h.2]
   · split at h
-    · cases rest <;> simp [stmtErr, mkErr, unexpected, Res.tagOut] at h
+    · cases rest <;> simp [stmtErr, mkErr, unexpected] at h
     · simp at h; rw [← h.2]
   · simp at h; rw [← h.2]
   · split at h
-    · simp [stmtErr, mkErr, Res.tagOut] at h
+    · simp [stmtErr, mkErr] at h
     · simp at h; rw [← h.2]
   · split at h
-    · split at h <;> simp at h; rw [← h.2]
-    · split at h <;> simp at h; rw [← h.2]
+    · obtain ⟨c, _, hc⟩ := Res.bind_eq_ok h
+      simp at hc; rw [← hc.2]
+    · obtain ⟨c, _, hc⟩ := Res.bind_eq_ok h
+      simp at hc; rw [← hc.2]
   · split at h
-    · simp [stmtErr, mkErr, Res.tagOut] at h
-    · split at h <;> simp at h; rw [← h.2]
+    · simp [stmtErr, mkErr] at h
+    · obtain ⟨c, _, hc⟩ := Res.bind_eq_ok h
+      simp at hc; rw [← hc.2]
     · simp at h; rw [← h.2]
 
 end C18
